@@ -229,7 +229,7 @@ def read_cases(path):
     return reqs, exps
 
 
-def harness(args, timeout=None, seed=0):
+def harness(args, timeout=3600, seed=0):
     env = dict(ENV)
     env["VERIF_SEED"] = str(seed)
     r = subprocess.run([HARNESS_BIN] + args, capture_output=True, text=True, timeout=timeout, env=env)
@@ -387,7 +387,7 @@ class Run:
                     pass
 
     def replay_path(self, name):
-        d = os.path.join(VERIF, "replays", self.pid)
+        d = os.path.join(WORK if os.environ.get("VERIF_REPO") else VERIF, "replays", self.pid)
         os.makedirs(d, exist_ok=True)
         return os.path.join(d, name)
 
@@ -413,8 +413,10 @@ class Run:
             "coverage": self.coverage, "assumptions": self.assumptions, "wall_s": round(wall, 2),
             "violations": len(self.violations),
         }
-        os.makedirs(os.path.join(VERIF, "evidence"), exist_ok=True)
-        with open(os.path.join(VERIF, "evidence", f"{self.pid}.json"), "w") as f:
+        # pre-screening runs (VERIF_REPO set) must not overwrite the evidence of /repo
+        evdir = os.path.join(WORK, "evidence") if os.environ.get("VERIF_REPO") else os.path.join(VERIF, "evidence")
+        os.makedirs(evdir, exist_ok=True)
+        with open(os.path.join(evdir, f"{self.pid}.json"), "w") as f:
             json.dump(ev, f, indent=1, default=str)
         for k in self.known_hit:
             print(f"KNOWN-FINDING: property={self.pid} {k['key']} {k['what']}")
